@@ -53,16 +53,16 @@ TIERS = {
         "design": [{"Mode": "full", "D": 2, "W": 2, "ng": 3, "Steps": True}],
         "controls": ["rm_hoist_first", "rm_and_keeps_survivors", "print_no_inner_parens",
                      "spell_mix_unparenthesised"],
-        "full": {"D": 2, "W": 2, "ng": 3, "palettes": 2},
-        "sample": {"D": 3, "W": 3, "ng": 4, "NSamples": 1200, "NSpell": 2, "palettes": 1},
+        "full": {"D": 2, "W": 2, "ng": 3, "palettes": 1},
+        "sample": {"D": 3, "W": 3, "ng": 4, "NSamples": 500, "NSpell": 2, "palettes": 1},
     },
     "thorough": {
         "design": [{"Mode": "full", "D": 2, "W": 2, "ng": 3, "Steps": True},
                    {"Mode": "full", "D": 2, "W": 3, "ng": 3, "Steps": False}],
         "controls": ["rm_hoist_first", "rm_and_keeps_survivors", "print_no_inner_parens",
                      "spell_mix_unparenthesised"],
-        "full": {"D": 2, "W": 2, "ng": 3, "palettes": 10},
-        "sample": {"D": 3, "W": 3, "ng": 4, "NSamples": 30000, "NSpell": 3, "palettes": 1},
+        "full": {"D": 2, "W": 2, "ng": 3, "palettes": 3},
+        "sample": {"D": 3, "W": 3, "ng": 4, "NSamples": 10000, "NSpell": 3, "palettes": 1},
     },
 }
 
@@ -153,7 +153,8 @@ def render(toks, conc, rnd):
 
 
 class Driver:
-    def __init__(self, palette, ng):
+    def __init__(self, palette, ng, all_pairs=True):
+        self.all_pairs = all_pairs
         import cobra  # noqa: F401  (the real library, from /repo through the editable install)
         self.genes = GENES[:ng]
         self.conc = {g: palette["ids"][i] for i, g in enumerate(self.genes)}
@@ -215,7 +216,8 @@ class Driver:
         rnd = random.Random(sd * 1000003 + tid * 7919 + j)
         toks = case["spells"][j]["toks"]
         text = render(toks, self.conc, rnd)
-        form = KO_FORMS[(tid + j) % len(KO_FORMS)]
+        var = rnd.randrange(1 << 16)        # seeded choice among equivalent call forms
+        form = KO_FORMS[var % len(KO_FORMS)]
         events = []
         g = None
         try:
@@ -227,17 +229,19 @@ class Driver:
         events.append(self.ev("parse", o, how=form))
         if g is not None and o["raises"] == "none":
             for how in DERIVED:
-                events.append(self.ev("derived", self.derived(g, text, how, tid + j), how=how))
-            for p in case["pairs"]:
+                events.append(self.ev("derived", self.derived(g, text, how, var + len(events)), how=how))
+            # == partners: on every second spelling of a tree in the quick tier (the partners belong to the tree)
+            for p in (case["pairs"] if self.all_pairs or tid % 2 == 0 else []):
                 try:
                     h = GPR.from_string(render(p["toks"], self.conc, rnd))
-                    o = self.obs(eq=self.tf(g == h), eq2=self.tf(h == g))
+                    # one direction per pair (alternating); the other stays "na"
+                    o = self.obs(eq=self.tf(g == h)) if (var + len(events)) % 2 else self.obs(eq2=self.tf(h == g))
                 except Exception as e:
                     o = self.obs(raises=type(e).__name__)
                 events.append(self.ev("eqpair", o, tree2=p["tree"], toks2=p["toks"]))
         for k, rm in enumerate(case["rms"]):
-            events.append(self.ev("remove", self.remove(text, rm["K"], rm["rr"], tid + j + k), K=rm["K"], rr=rm["rr"],
-                                  how=["ids", "genes", "geneset"][(tid + j + k) % 3]))
+            events.append(self.ev("remove", self.remove(text, rm["K"], rm["rr"], var + k), K=rm["K"], rr=rm["rr"],
+                                  how=["ids", "genes", "geneset"][(var + k) % 3]))
         return {"tid": tid, "tree": case["tree"], "toks": toks, "text": text, "events": events}
 
     def derived(self, g, text, how, variant):
@@ -273,7 +277,7 @@ class Driver:
                 raise C.Machinery("unknown derivation %r" % how)
             return self.obs(tt=self.table(d, "set"), genes=self.absgenes(d.genes),
                             toks=toks if toks is not None else self.lex(d.to_string()), toks2=self.lex(str(d)),
-                            eq=self.tf(d == g), eq2=self.tf(g == d))
+                            **({"eq": self.tf(d == g)} if variant % 2 else {"eq2": self.tf(g == d)}))
         except C.Machinery:
             raise
         except Exception as e:
@@ -315,15 +319,15 @@ def _quiet():
 
 
 def _drive_chunk(args):
-    ng, sd, items = args
+    ng, sd, all_pairs, items = args
     _quiet()
     out = []
     for tid, pal, case, j in items:
-        out.append(Driver(pal, ng).run(case, j, tid, sd))
+        out.append(Driver(pal, ng, all_pairs).run(case, j, tid, sd))
     return out
 
 
-def drive_all(cases, ng, npal, sd, pool, tid0):
+def drive_all(cases, ng, npal, sd, pool, tid0, all_pairs=True, ci0=0):
     """every (case, spelling) under `npal` palettes: a fixed rotation through all palettes plus
     seed-dependent further ones"""
     items, meta = [], {}
@@ -331,7 +335,7 @@ def drive_all(cases, ng, npal, sd, pool, tid0):
     P = len(PALETTES)
     for ci, case in enumerate(cases):
         for j in range(len(case["spells"])):
-            first = (ci + j) % P
+            first = (ci0 + ci + j) % P
             step = 1 + sd % (P - 1)
             chosen = list(range(P)) if npal >= P else [first]
             q = 1
@@ -344,7 +348,7 @@ def drive_all(cases, ng, npal, sd, pool, tid0):
                 tid += 1
                 items.append((tid, PALETTES[pi], case, j))
                 meta[tid] = (PALETTES[pi]["name"], ci, j)
-    jobs = [(ng, sd, ch) for ch in C.chunks(items, max(20, len(items) // (C.NCPU * 6) + 1))]
+    jobs = [(ng, sd, all_pairs, ch) for ch in C.chunks(items, max(20, len(items) // (C.NCPU * 6) + 1))]
     traces = []
     for part in pool.imap_unordered(_drive_chunk, jobs):
         traces.extend(part)
@@ -356,16 +360,20 @@ def drive_all(cases, ng, npal, sd, pool, tid0):
 def _validate_file(args):
     path, ng, wd = args
     cfgp = C.write_cfg(path + ".cfg", {"Bug": "none"}, {"GeneSeq": "GeneSeq%d" % ng})
-    res = C.run_tlc("TraceGPR", cfgp, wd, workers=2, env={"TRACE_FILE": path}, timeout=3000, heap="3g")
+    res = C.run_tlc("TraceGPR", cfgp, wd, workers=2, timeout=3000, heap="3g",
+                    env={"TRACE_FILE": path, "JAVA_TOOL_OPTIONS": "-XX:ParallelGCThreads=2 -XX:CICompilerCount=2"})
     return {"printed": res["printed"], "distinct": res["distinct"], "generated": res["generated"], "cmd": res["cmd"]}
 
 
-def validate(traces, ng, wd, tag, max_events=24000):
+def validate(traces, ng, wd, tag):
+    total = sum(len(t["events"]) for t in traces)
+    # about one batch file per two cores, but no JVM for fewer than ~6000 events
+    per_file = max(6000, total // max(1, C.NCPU // 2) + 1)
     files, cur, n = [], [], 0
     for t in traces:
         cur.append(t)
         n += len(t["events"])
-        if n >= max_events:
+        if n >= per_file:
             files.append(cur)
             cur, n = [], 0
     if cur:
@@ -416,7 +424,11 @@ def run(prop, tier, replay=None):
     T = TIERS[tier]
     if replay is not None:
         return _replay(rep, wd, replay)
+    import time
+    phases = {}
+    t0 = time.time()
     runs, controls = design_check(wd, rep, tier)
+    phases["design+controls"] = round(time.time() - t0, 1)
     rep.coverage["design_runs"] = runs
     total_traces = total_events = 0
     per_action, per_style, per_palette = {}, {}, {}
@@ -429,41 +441,57 @@ def run(prop, tier, replay=None):
     with mp.get_context("fork").Pool(C.NCPU) as pool:
         for mode in ("full", "sample"):
             p = T[mode]
+            t0 = time.time()
             cases, gstats = generate(wd, mode, p, sd)
+            phases[mode + ":generate"] = round(time.time() - t0, 1)
             if mode == "sample" and len(cases) != p["NSamples"]:
                 raise C.Machinery("generator emitted %d sampled cases, expected %d" % (len(cases), p["NSamples"]))
-            traces, meta = drive_all(cases, p["ng"], p["palettes"], sd, pool, tid0)
-            tid0 += len(traces)
-            verdicts, cmd = validate(traces, p["ng"], wd, mode)
-            _report(rep, verdicts, traces, meta, cases, p["ng"], notes)
-            total_traces += len(traces)
-            for t in traces:
-                pal, ci, j = meta[t["tid"]]
-                st = cases[ci]["spells"][j]["style"]
-                sk = st["ops"] + "/" + st["par"]
-                per_style[sk] = per_style.get(sk, 0) + 1
-                per_palette[pal] = per_palette.get(pal, 0) + 1
-                total_events += len(t["events"])
-                tk = " ".join(t["toks"])
-                for e in t["events"]:
-                    k = e["kind"] if e["kind"] != "derived" else "derived:" + e["how"]
-                    per_action[k] = per_action.get(k, 0) + 1
-                    o = e["obs"]
-                    distinct_cases.add(hash((tk, e["kind"], e["how"] if e["kind"] == "derived" else "",
-                                             " ".join(e["toks2"]), tuple(e["K"]), e["rr"])))
-                    if e["kind"] == "eqpair":
-                        stats["eq_true" if o["eq"] == "T" else "eq_false"] += 1
-                    elif e["kind"] == "parse":
-                        stats["ko_forms"][e["how"]] = stats["ko_forms"].get(e["how"], 0) + 1
-                    elif e["kind"] == "remove" and o["raises"] == "none":
-                        if not o["present"]:
-                            stats["removals_reaction_removed"] += 1
-                        elif not o["toks"]:
-                            stats["removals_rule_emptied"] += 1
-                        elif e["K"] and o["toks"] != t["events"][0]["obs"]["toks"]:
-                            stats["removals_catalysable_rule_changed"] += 1
-            if traces:
-                samples.append(traces[len(traces) // 2])
+            # slices bound the memory held at a time (a trace is ~25-40 events)
+            per_case = len(cases[0]["spells"]) * min(p["palettes"], len(PALETTES))
+            step = max(1, 9000 // per_case)
+            phases[mode + ":drive"] = phases[mode + ":validate"] = 0.0
+            for a in range(0, len(cases), step):
+                sub = cases[a:a + step]
+                t0 = time.time()
+                traces, meta = drive_all(sub, p["ng"], p["palettes"], sd, pool, tid0, all_pairs=(tier == "thorough"),
+                                         ci0=a)
+                tid0 += len(traces)
+                phases[mode + ":drive"] = round(phases[mode + ":drive"] + time.time() - t0, 1)
+                t0 = time.time()
+                verdicts, cmd = validate(traces, p["ng"], wd, "%s_%d" % (mode, a))
+                phases[mode + ":validate"] = round(phases[mode + ":validate"] + time.time() - t0, 1)
+                _report(rep, verdicts, traces, meta, sub, p["ng"], notes)
+                total_traces += len(traces)
+                for t in traces:
+                    pal, ci, j = meta[t["tid"]]
+                    st = sub[ci]["spells"][j]["style"]
+                    sk = st["ops"] + "/" + st["par"]
+                    per_style[sk] = per_style.get(sk, 0) + 1
+                    per_palette[pal] = per_palette.get(pal, 0) + 1
+                    total_events += len(t["events"])
+                    tk = " ".join(t["toks"])
+                    for e in t["events"]:
+                        k = e["kind"] if e["kind"] != "derived" else "derived:" + e["how"]
+                        per_action[k] = per_action.get(k, 0) + 1
+                        o = e["obs"]
+                        distinct_cases.add(hash((tk, e["kind"], e["how"] if e["kind"] == "derived" else "",
+                                                 " ".join(e["toks2"]), tuple(e["K"]), e["rr"])))
+                        if e["kind"] == "eqpair":
+                            stats["eq_true" if "T" in (o["eq"], o["eq2"]) else "eq_false"] += 1
+                        elif e["kind"] == "parse":
+                            stats["ko_forms"][e["how"]] = stats["ko_forms"].get(e["how"], 0) + 1
+                        elif e["kind"] == "remove" and o["raises"] == "none":
+                            if not o["present"]:
+                                stats["removals_reaction_removed"] += 1
+                            elif not o["toks"]:
+                                stats["removals_rule_emptied"] += 1
+                            elif e["K"] and o["toks"] != t["events"][0]["obs"]["toks"]:
+                                stats["removals_catalysable_rule_changed"] += 1
+                if traces and a == 0:
+                    samples.append(traces[len(traces) // 2])
+                for f in os.listdir(wd):        # the batch files of this slice have been judged
+                    if f.startswith("batch_"):
+                        os.unlink(os.path.join(wd, f))
             rep.coverage.setdefault("case_generation", {})[mode] = {
                 "trees": len(cases), "tlc_states": gstats["distinct"], "genes": p["ng"],
                 "constants": _consts(mode, p, sd if mode == "sample" else 0, True)[0],
@@ -493,7 +521,7 @@ def run(prop, tier, replay=None):
     return rep.finish({
         "traces_validated_against_impl": total_traces, "events_validated": total_events,
         "per_action_counts": per_action, "per_style_counts": per_style, "per_palette_counts": per_palette,
-        "negative_controls": controls, "observation_stats": stats,
+        "negative_controls": controls, "observation_stats": stats, "phase_wall_s": phases,
         "model_fidelity_notes": {"to_string_differs_from_PrintToks": notes.get("print_shape", 0)},
         "distinct_pre_state_action_pairs": len(distinct_cases),
         "rule": "a case is a distinct (spelling token sequence, call, arguments) tuple: parse, each derivation, each == "
@@ -505,10 +533,41 @@ def _replay(rep, wd, payload):
     r = payload["replay"]
     pal = [p for p in PALETTES if p["name"] == r["palette"]][0]
     _quiet()
-    t = Driver(pal, r["ng"]).run(r["case"], r["spell"], r["tid"], payload.get("seed", 0))
+    t = Driver(pal, r["ng"], payload.get("tier") == "thorough").run(r["case"], r["spell"], r["tid"], payload.get("seed", 0))
     verdicts, cmd = validate([t], r["ng"], wd, "replay")
     notes = {}
     _report(rep, verdicts, [t], {t["tid"]: (pal["name"], 0, r["spell"])}, [r["case"]], r["ng"], notes)
     rep.coverage["states"] = rep.coverage["transitions"] = 1
     rep.coverage["samples"] = [t]
     return rep.finish({"traces_validated_against_impl": 1, "events_validated": len(t["events"])})
+
+
+def selftest():
+    """Binding check used by ./check --selftest: a few cases are driven for real, ONE recorded field of one
+    event is corrupted (a truth-table entry of the parse event, a reported gene, the rule text after a removal),
+    and TraceGPR must print a MISMATCH for exactly that event; the uncorrupted traces must give only
+    verdicts of open known findings."""
+    wd = C.workdir("C08_selftest")
+    try:
+        _quiet()
+        cases, _ = generate(wd, "full", TIERS["quick"]["full"], 0)
+        picked = [c for c in cases if c["depth"] == 2][100:103]
+        traces = [Driver(PALETTES[1 + i], 3).run(c, 3, i + 1, 0) for i, c in enumerate(picked)]   # style lower/min
+        base, _ = validate(traces, 3, wd, "self0")
+        if [v for v in base if v.get("verdict") == "MISMATCH"]:
+            raise C.Machinery("selftest: word-spelled traces are expected to be clean: %s" % json.dumps(base)[:300])
+        bad = json.loads(json.dumps(traces))
+        bad[0]["events"][0]["obs"]["tt"][0] = not bad[0]["events"][0]["obs"]["tt"][0]
+        bad[1]["events"][0]["obs"]["genes"] = bad[1]["events"][0]["obs"]["genes"][1:]
+        rm = [k for k, e in enumerate(bad[2]["events"]) if e["kind"] == "remove" and e["obs"]["toks"] and e["obs"]["present"]][-1]
+        bad[2]["events"][rm]["obs"]["toks"] = []
+        got, _ = validate(bad, 3, wd, "self1")
+        seen = {(v["tid"], v["l"], tuple(sorted(v["fields"]))) for v in got if v.get("verdict") == "MISMATCH"}
+        want = {(1, 1, ("tt",)), (2, 1, ("genes",))}
+        if not want <= seen or not any(t == 3 and l == rm + 1 for t, l, _ in seen):
+            raise C.Machinery("selftest: corrupted fields were not all rejected: %s" % sorted(seen))
+        return {"corrupted": 3, "rejected": sorted(seen)}
+    finally:
+        if not os.environ.get("VERIF_KEEP_WORK"):
+            import shutil
+            shutil.rmtree(wd, ignore_errors=True)
